@@ -16,7 +16,9 @@
  *     its timeout until every thread that was enabled at that moment has executed one operation
  *     (or got blocked / finished); polling loops therefore terminate, bounded by max_steps;
  *   - no enabled thread and not all finished = deadlock; horizon reached = hang.
- * eventfd / epoll / pipe objects stay real kernel objects (deterministic because serialised).
+ * eventfd / epoll / pipe objects stay real kernel objects (deterministic because serialised);
+ * descriptors created by eventfd()/pipe()/pipe2() inside a session are tracked: read()/write() on them
+ * are scheduling points.
  * Condition variables are modelled here (the real object is never waited on); mutexes are modelled
  * AND really try-locked so that the real object state stays consistent.
  * Not modelled: spurious condition-variable wake-ups; a timed condition wait times out only while
@@ -34,6 +36,7 @@
 #include <stdio.h>
 #include <stdlib.h>
 #include <string.h>
+#include <fcntl.h>
 #include <sys/epoll.h>
 #include <sys/eventfd.h>
 #include <sys/select.h>
@@ -49,7 +52,7 @@
 enum { OP_NONE, OP_START, OP_STEP, OP_LOCK, OP_CONDWAIT, OP_JOIN, OP_JOINALL, OP_EPOLL, OP_SELECT, OP_SLEEP };
 
 typedef struct {
-  int used, fin;
+  int used, fin, joined;
   pthread_t pth;
   volatile int go;
   int op;
@@ -290,11 +293,13 @@ int pthread_create (pthread_t *th, const pthread_attr_t *attr, void *(*fn) (void
 
 int pthread_join (pthread_t th, void **ret) {
   if (MANAGED ()) {
-    for (int i = 0; i < MAXT; i++) if (T[i].used && i != my_tid && pthread_equal (T[i].pth, th)) {
+    /* pthread_t values are reused after a join: only a not-yet-joined entry can be meant */
+    for (int i = 0; i < MAXT; i++) if (T[i].used && !T[i].joined && i != my_tid && pthread_equal (T[i].pth, th)) {
       sthread *t = &T[my_tid];
       t->op = OP_JOIN; t->jtarget = i; t->label = "join"; t->timed = 0;
       run_sched (my_tid);
       t->op = OP_NONE;
+      T[i].joined = 1;
       break;
     }
   }
@@ -409,6 +414,7 @@ int clock_nanosleep (clockid_t clk, int flags, const struct timespec *req, struc
 }
 int clock_gettime (clockid_t clk, struct timespec *ts) {
   if (!MANAGED ()) return REAL (clock_gettime) (clk, ts);
+  step ("clock");             /* also a scheduling point: separates the atomics around it in timer.cpp */
   ts->tv_sec = VBASE_S + vnow / 1000000000LL;
   ts->tv_nsec = vnow % 1000000000LL;
   return 0;
@@ -448,6 +454,16 @@ int eventfd (unsigned int init, int flags) {
   int fd = REAL (eventfd) (init, flags);
   if (MANAGED () && fd >= 0) sched_track_fd (fd);
   return fd;
+}
+int pipe2 (int fds[2], int flags) {
+  int r = REAL (pipe2) (fds, flags);
+  if (MANAGED () && r == 0) { sched_track_fd (fds[0]); sched_track_fd (fds[1]); }
+  return r;
+}
+int pipe (int fds[2]) {
+  int r = REAL (pipe) (fds);
+  if (MANAGED () && r == 0) { sched_track_fd (fds[0]); sched_track_fd (fds[1]); }
+  return r;
 }
 ssize_t read (int fd, void *buf, size_t n) {
   if (MANAGED () && is_tracked (fd)) step ("read");
